@@ -194,7 +194,24 @@ harness(void)
         part = BASE(part, buf + S, N - S);
         VASSERT(part == whole, "crc(crc(seed, A), B) == crc(seed, A||B)");
 #elif defined(H_ADLER)
-        VASSERT(BASE(seed, buf, N) == spec_adler32((uint32_t) seed, I.a, N), "adler32_base == RFC 1950 definition");
+        /* a running Adler-32 value has both halves < 65521 */
+        VASSUME((seed & 0xffff) < SPEC_ADLER_MOD && (seed >> 16) < SPEC_ADLER_MOD);
+#ifdef ADLER_PCT
+        VASSERT(BASE(seed, buf, N) == spec_adler32((uint32_t) seed, I.a, N), "adler32_base == RFC 1950 definition (%)");
+#else
+        VASSERT(BASE(seed, buf, N) == spec_adler32_cs((uint32_t) seed, I.a, N), "adler32_base == RFC 1950 definition");
+#endif
+#elif defined(H_ADLER_CS)
+        VASSUME((seed & 0xffff) < SPEC_ADLER_MOD && (seed >> 16) < SPEC_ADLER_MOD);
+        uint32_t r = spec_adler32((uint32_t) seed, I.a, N);
+        VASSERT(r == spec_adler32_cs((uint32_t) seed, I.a, N), "conditional-subtraction form == modulo form");
+        VASSERT((r & 0xffff) < SPEC_ADLER_MOD && (r >> 16) < SPEC_ADLER_MOD, "halves stay < 65521");
+#elif defined(H_ADLER_SPLIT)
+        VASSUME((seed & 0xffff) < SPEC_ADLER_MOD && (seed >> 16) < SPEC_ADLER_MOD);
+        uint64_t whole = BASE(seed, buf, N);
+        uint64_t part = BASE(seed, buf, S);
+        part = BASE(part, buf + S, N - S);
+        VASSERT(part == whole, "adler(adler(seed, A), B) == adler(seed, A||B)");
 #elif defined(H_BAM1)
         /* stored form: B<<16 | (A-1 mod 65521); documented domain: stored low half < 65521 */
         uint32_t st = (uint32_t) seed;
